@@ -6,7 +6,7 @@ from sfa.rules import resolve
 from sfa.rules import table
 
 LEVEL_TEXT = (
-    'Static decision of a structural clause of C20: join_inner/left/right/outer pass the like-named Join member and forward every own parameter by name; _join handles every member of Join and raises otherwise; its LEFT and RIGHT index branches are mirror images (left<->right, PairLeft<->PairRight, tuple order). Frame.pivot applies its unique-value index positionally only on paths on which the rows were brought into that index\'s order (reindex to its flat form / concatenation on it / equality test), decided per path on the symbolic store. Per path of set_index / set_index_hierarchy / unset_index: the new index is built from the addressed column(s) of self\'s own blocks in row order, drop removes the same positional key from data and labels, the hierarchy reordering applies one permutation to index and rows, unset_index puts index values and index names in front of blocks and column labels, the name is kept. Option forwarding: in every reshaping / relational interface each call to a resolved callee that accepts a parameter named like one of the function\'s own parameters passes it on (confirmed exceptions listed in sfa/rules/forwardrules.py). relabel_shift_out reads the labels of the moved levels by iterating the caller\'s depth_level in the order in which `_extract(column_key=depth_level)` delivers the arrays, and puts both in front. Dtype accumulators: a per-key dtype map filled in a loop merges repeated keys with the resolver, and a dtype that types an array built from a loop-filled list is only widened inside that loop (pivot_stack / pivot_unstack column dtypes). Not decided: the aggregation itself, pivot_stack/unstack and join matching, which are relational computations over values.')
+    'Static decision of a structural clause of C20: join_inner/left/right/outer pass the like-named Join member and forward every own parameter by name; _join handles every member of Join and raises otherwise; its LEFT and RIGHT index branches are mirror images (left<->right, PairLeft<->PairRight, tuple order). Frame.pivot applies its unique-value index positionally only on paths on which the rows were brought into that index\'s order (reindex to its flat form / concatenation on it / equality test), decided per path on the symbolic store. Per path of set_index / set_index_hierarchy / unset_index: the new index is built from the addressed column(s) of self\'s own blocks in row order, drop removes the same positional key from data and labels, the hierarchy reordering applies one permutation to index and rows, unset_index puts index values and index names in front of blocks and column labels, the name is kept. Option forwarding: in every reshaping / relational interface each call to a resolved callee that accepts a parameter named like one of the function\'s own parameters passes it on (confirmed exceptions listed in sfa/rules/forwardrules.py). relabel_shift_out reads the labels of the moved levels by iterating the caller\'s depth_level in the order in which `_extract(column_key=depth_level)` delivers the arrays, and puts both in front. Dtype accumulators: a per-key dtype map filled in a loop merges repeated keys with the resolver, and a dtype that types an array built from a loop-filled list is only widened inside that loop (pivot_stack / pivot_unstack column dtypes). Join key sources: with both index depths and columns given for a side, arrays_from_index_frame yields both parts of the composite key. Not decided: the aggregation itself, pivot_stack/unstack and join matching, which are relational computations over values.')
 
 CLAIM = dict(
     text=LEVEL_TEXT,
@@ -23,3 +23,4 @@ def run(ctx: Ctx) -> None:
     forwardrules.forwarding(ctx, modules=None, prefixes=('pivot', 'join', 'set_index', 'unset_index', 'relabel_shift', 'rehierarch', '_join', 'relabel_level'), suffix='reshape', floor=55, what='reshaping / relational interface')
     resolve.f1_dtype_accumulators(ctx)
     resolve.f1_loop_dtype_carried(ctx)
+    reshaperules.join_key_sources(ctx)
